@@ -957,3 +957,35 @@ func (g *PCFG) holdsOnAllPaths(b *ssa.BasicBlock, sat func(Cond) bool, depth int
 	}
 	return true
 }
+
+// holdsOnAllPathsOr: like holdsOnAllPaths, but a path is also fine when it passes through a block for
+// which via() holds (an instruction that establishes the fact directly).
+func (g *PCFG) holdsOnAllPathsOr(b *ssa.BasicBlock, sat func(Cond) bool, via func(*ssa.BasicBlock) bool, depth int) bool {
+	if via(b) {
+		return true
+	}
+	for _, cd := range g.expandAnd(g.CondsAt(b)) {
+		if sat(cd) {
+			return true
+		}
+	}
+	if depth > 8 {
+		return false
+	}
+	preds := g.Preds(b)
+	if len(preds) == 0 {
+		return false
+	}
+	for _, pr := range preds {
+		ok := false
+		for _, cd := range g.expandAnd(g.CondsOnEdge(pr, b)) {
+			if sat(cd) {
+				ok = true
+			}
+		}
+		if !ok && !g.holdsOnAllPathsOr(pr, sat, via, depth+1) {
+			return false
+		}
+	}
+	return true
+}
